@@ -152,6 +152,7 @@ def run_cases(cases, out, label, feats=None, chunk=400):
         index[tid] = (case, tr)
         if crash:
             out.drift.append("%s: the code under test raised during a disciplined execution: %s" % (tid, crash))
+            out.extra["executions_that_raised"] = out.extra.get("executions_that_raised", 0) + 1
         if feats is not None:
             _features(tr, feats)
         nwire = sum(1 for e in tr["ev"] if e["a"] == "WireStart")
@@ -275,6 +276,8 @@ def run(ctx, out):
     out.extra["features_exercised"] = feats
     for need in ACTIONS + ["Sample", "chunked-end", "several-clients", "nested", "concurrent-children", "composite-with-sub-requests"]:
         if not feats.get(need):
+            if out.extra.get("executions_that_raised") and need in ("Sample", "composite-with-sub-requests"):
+                continue  # no sample reaches the sampler when the executor raises; reported as drift above
             out.vacuous.append(need)
     out.note("leg C2S: %d executions validated by TLC; features %s" % (out.traces_validated, feats))
 
